@@ -104,6 +104,8 @@ def run(ctx):
     def matches_known(c, r):
         for f in known:   # exact trigger: the sensitivity bit computed by the judge, and no flag outside the finding's mask
             cond = f.get("cond", "")
+            if cond == "sens:1" and (r[2] & 1) and len(r) > 6 and r[6] == 0 and not (r[0] & (32 | 64)):
+                return f   # the drawing is exactly what the order-only cascade prescribes (judge output 7)
             if cond.startswith("sens:") and (r[2] & int(cond[5:])) and f.get("flagmask", 0) and (r[0] & ~f["flagmask"]) == 0:
                 return f
         return None
